@@ -29,7 +29,7 @@ func (b *verifRespBody) Read(p []byte) (int, error) {
 	b.pos += n
 	return n, nil
 }
-func (b *verifRespBody) Close() error               { *b.closed++; return nil }
+func (b *verifRespBody) Close() error              { *b.closed++; return nil }
 func (b *verifRespBody) VerifAll() ([]byte, error) { return b.data[b.pos:], nil }
 
 // verifBridgeClient is an in-process HTTPClient: Do calls Bridge.ServeHTTP.
